@@ -286,6 +286,9 @@ func (rs *rigState) commitItems(items []*txgen.Item, path string) bool {
 	bsmp := blockSample{H: block.Height, Path: path}
 	for i, it := range committed {
 		c.Probe("kind/" + string(it.Kind))
+		if it.Token != txgen.Native {
+			c.Probe("token-flavour/" + string(it.Kind))
+		}
 		st := "ok"
 		if it.Kind != txgen.KMultiSign && receipts[i].Status != types.ReceiptStatusSuccessful {
 			st = "FAILED(" + receipts[i].VMErr + ")"
